@@ -100,6 +100,17 @@ func (r *Rec) note(s string)            { r.Notes = append(r.Notes, s) }
 // (vacuity guard: a rule matching nothing passes forever).
 func (r *Rec) floor(rule string, n int) { r.floors[rule] = n }
 
+// floorSoft: a rule over private shapes that bound nothing on this tree says so (not-evaluated)
+// instead of failing: its constructs are not derived from the public API.
+func (r *Rec) floorSoft(rule, construct, why string) {
+	for _, o := range r.Obls {
+		if o.Rule == rule {
+			return
+		}
+	}
+	r.skip(rule, construct, "", why)
+}
+
 func (r *Rec) applyFloors() {
 	counts := map[string]int{}
 	for _, o := range r.Obls {
